@@ -96,8 +96,8 @@ from common import impl_error
 from props import hytera_tables as HT
 
 PROP = "C12"
-MODULES = ["C12", "C12a", "C12b", "C12c", "C12d"]
-GEN = ["Hytera"]
+MODULES = ["C12", "C12a", "C12b", "C12c", "C12d", "C12p", "C12t"]
+GEN = ["Hytera", "TranslHytera"]
 
 TESTS = os.path.join(os.environ.get("VERIF_REPO") or "/repo", "okdmr/tests/dmrlib/hytera")
 
@@ -4060,6 +4060,30 @@ def run_corpus(ctx, pairs):
             pairs.append((f"{kind}.parse {h}", {"hstrp": impl_hstrp_parse, "hrnp": impl_hrnp_parse, "hdap": impl_hdap_parse}[kind](data)))
 
 
+HRNP_LENGTH_WITNESS = ("7e040000201000070024f4e90900ae0011000000010a0007d10a0007d2b6000000f8ff03",
+                       "7e040000201000070020f4e90900ae0011000000010a0007d10a0007d2b6000000f8ff03")
+
+
+def run_hrnp_length_witness(ctx, pairs):
+    """the repaired defect of the HRNP length octets (C04): a library-serialised TMP-in-HRNP packet and the same with
+    bit 2 of octet 9 inverted (36 -> 32), whose truncated octet range satisfied the checksum; model and code compared on
+    both, the corrupted one must not be checksum_correct"""
+    sent, bad = (bytes.fromhex(h) for h in HRNP_LENGTH_WITNESS)
+    for tag, data in (("sent", sent), ("length-bit-inverted", bad), ("length-bit-inverted+trailing", bad + b"\x7e\x04")):
+        o = call(L.hrnp.HRNP.from_bytes, data)
+        ctx.case(("corpus", "hrnp-length-witness", tag))
+        ctx.count("corpus:hrnp-length-witness")
+        inp = {"corpus": data.hex(), "layer": "hrnp", "witness": tag}
+        if tag == "sent":
+            if isinstance(o, Exc) or o.checksum_correct is not True:
+                ctx.fail("corpus-checksum", inp, "the library-serialised HRNP packet of the length witness does not verify", expected=True, actual=repr(o) if isinstance(o, Exc) else False)
+        elif not isinstance(o, Exc) and o.checksum_correct:
+            ctx.fail("hrnp-length-bit-accepted", inp, "HRNP packet with one inverted bit in the packet-length field is reported checksum_correct (defect repaired by the length cross-check in HRNP.from_bytes)",
+                     expected="checksum_correct false or a decode error", actual="checksum_correct true")
+        if pairs is not None:
+            pairs.append((f"hrnp.parse {data.hex()}", impl_hrnp_parse(data)))
+
+
 def regression_pdus():
     """inputs of the two repaired defects (eccf836, 858bc10) and the shapes the captures never contain"""
     lp, T = L.lp, L.tmp
@@ -4134,6 +4158,41 @@ def speed_overflow(f) -> bool:
 MATCHERS = {"lp_speed_longer_than_three_characters": speed_overflow}
 
 
+def run_transl(ctx):
+    """Differential validation of the source translator (tools/py2lean.py) and its prelude (Model/Py.lean), trusted base of
+    Props/C12t: the definitions TRANSLATED from the source of HDAP.get_hdap_checksum and HRNP.calculate_checksum
+    (`Gen/TranslHytera.lean`, driver operations `t.hy.*`) against the real functions on empty / short / odd / even / long /
+    constant / random byte strings and on strings whose word sum needs several end-around-carry passes.  A difference is a
+    translator or prelude bug, never a finding about /repo."""
+    if ctx.search_only or not ctx.driver_ok:
+        return
+    from okdmr.dmrlib.hytera.pdu.hdap import HDAP as _HDAP
+    from okdmr.dmrlib.hytera.pdu.hrnp import HRNP as _HRNP
+    rng = ctx.rng
+
+    def hx(b):
+        return b.hex() if b else "-"
+
+    def res(fn, d):
+        try:
+            return hx(fn(d))
+        except Exception as e:  # noqa
+            return impl_error(e)
+
+    data = [b"", b"\x00", b"\xff", b"\xff\xff", b"\x00" * 7, b"\xff" * 9, bytes(range(256)), bytes.fromhex("7e0400fe20100000000c60e1")]
+    data += [bytes([v]) * k for v in (0, 1, 0x7F, 0x80, 0xCC, 0xFF) for k in (2, 3, 255, 256, 257, 514)]
+    data += [b"\xff" * k for k in (65534, 65536, 131070, 131072, 131074)]  # word sums around 2^16 .. 2^32: two carry passes
+    data += [bytes(rng.randrange(256) for _ in range(rng.choice((1, 2, 3, 5, 8, 12, 13, 20, 31, 64, 100, 300, 1500)))) for _ in range(ctx.budget(400, 4000))]
+    data += [bytes(rng.choice((0, 0xFF, 0xFE, 1)) for _ in range(rng.randrange(0, 40))) for _ in range(ctx.budget(200, 2000))]
+    pairs = []
+    for d in data:
+        pairs.append(("t.hy.hdapsum " + hx(d), res(_HDAP.get_hdap_checksum, d)))
+        pairs.append(("t.hy.hrnpsum " + hx(d), res(_HRNP.calculate_checksum, d)))
+    ctx.count("transl:get_hdap_checksum", len(data))
+    ctx.count("transl:calculate_checksum", len(data))
+    ctx.correspond("transl", pairs)
+
+
 def run(ctx):
     load()
     rng = ctx.rng
@@ -4170,6 +4229,12 @@ def run(ctx):
         "entry points: service class, HDAP, HRNP and HSTRP from_bytes of hand-written wrappers; what parses is rebuilt through the constructor and goes through the whole oracle. "
         "A case is one PDU (distinct = distinct field tuple and text hand-over), one history, one probe or one frame; all are non-trivial except table frames that carry an undocumented value."
     )
+    ctx.trusted_base += [
+        "tools/py2lean.py + tools/extract_transl.py (source translator: Gen/TranslHytera.lean from inspect.getsource of HDAP.get_hdap_checksum / HRNP.calculate_checksum) and "
+        "lean/DmrVerif/Model/Py.lean (semantics of the Python subset); validated on every run by the differential operations t.hy.* (run_transl); "
+        "Props/C12t proves the translated definitions equal to the model's hdapChecksum / hrnpCheck for all byte strings",
+    ]
+    run_transl(ctx)
     ctx.trusted_base += [
         "Lean 4.33 kernel",
         "tools/extract_hytera.py (member values of the Hytera enums, complete value graphs checked against member-or-missing)",
@@ -4215,6 +4280,7 @@ def run(ctx):
 
     # -------- corpus and regression inputs first
     run_corpus(ctx, pairs)
+    run_hrnp_length_witness(ctx, pairs)
     for kind, p in regression_pdus():
         one_pdu(ctx, rng, p, kind, pairs, sample=kind.endswith("request"))
     if pairs is not None:
